@@ -432,7 +432,19 @@ impl<'r> ProgGen<'r> {
 /// Generate a program a -> b; returns the DAG restricted to what the root reaches.
 pub fn gen_program(rng: &mut Rng, p: &GenParams, a: &T, b: &T) -> Dag {
     let mut g = ProgGen::new(rng, p.clone());
-    let root = g.gen(a, b, p.fuel);
+    let root = if p.fuel >= 2 && a.is_unit() && b.is_unit() && g.rng.chance(9, 10) {
+        // a 1 -> 1 program would otherwise often be just `unit`
+        let mut m = g.mid_type(a, b);
+        if m.is_unit() {
+            m = ty::gen_ty(g.rng, &p.mid);
+        }
+        let f = p.fuel - 1;
+        let l = g.gen(a, &m, f / 2);
+        let r = g.gen(&m, b, f - f / 2);
+        g.push(Op::Comp(l, r), a, b)
+    } else {
+        g.gen(a, b, p.fuel)
+    };
     let dag = g.dag.reachable_from(root);
     compact_witnesses(dag)
 }
